@@ -347,6 +347,68 @@ def check_native_ioport_failure_propagates():
             sys.modules.pop(v, None)
 
 
+def check_concurrent_first_use():
+    """Two threads make the first use of the same backend module at the same time (the module
+    is an ordinary file whose execution pauses half-way): both get the complete module, so both
+    open the module's native IOPort."""
+    import threading
+    import mido.backends.backend as bb
+    d = core.scratch('backendmod')
+    name = 'vf_slow_backend_%d' % os.getpid()
+    with open(os.path.join(d, name + '.py'), 'w') as f:
+        f.write(
+            "import threading\n"
+            "calls = []\n"
+            "gate = threading.Event()\nentered = threading.Event()\n"
+            "class _P:\n"
+            "    def __init__(self, name=None, **kw):\n"
+            "        self.name = name; self.closed = False; calls.append((type(self).__name__, name))\n"
+            "class Input(_P): pass\n"
+            "class Output(_P): pass\n"
+            "entered.set()\n"
+            "gate.wait(5)\n"
+            "class IOPort(_P): pass\n"
+            "def get_devices(**kw): return []\n")
+    sys.path.insert(0, d)
+    box = {}
+    try:
+        def use(tag):
+            try:
+                box[tag] = type(bb.Backend(name, use_environ=False).open_ioport('p' + tag)).__name__
+            except Exception as e:
+                box[tag] = 'raised %r' % (e,)
+        t1 = threading.Thread(target=use, args=('1',), daemon=True)
+        t1.start()
+        import time
+        deadline = time.time() + 5
+        while name not in sys.modules and time.time() < deadline:
+            time.sleep(0.001)
+        mod = sys.modules.get(name)
+        if mod is None or not mod.entered.wait(5):
+            return 'the module was never imported'
+        t2 = threading.Thread(target=use, args=('2',), daemon=True)
+        t2.start()
+        t2.join(0.3)                 # it has to wait for the import to finish
+        early = box.get('2')
+        mod.gate.set()
+        t1.join(5)
+        t2.join(5)
+        if box.get('1') != 'IOPort' or box.get('2') != 'IOPort' or early is not None:
+            return ('first use from two threads while the module is still being imported: the threads got %r '
+                    '(the second one returned %s before the import had finished); constructors called: %r' % (
+                        box, 'a port' if early else 'nothing', getattr(mod, 'calls', None)))
+        return None
+    except Exception as e:
+        return 'sequence raised %r' % (e,)
+    finally:
+        try:
+            sys.modules[name].gate.set()
+        except Exception:
+            pass
+        sys.path.remove(d)
+        sys.modules.pop(name, None)
+
+
 def check_call_kwargs_do_not_persist():
     """Keyword arguments of one open_*() call reach that call's constructors only."""
     import mido.backends.backend as bb
@@ -385,6 +447,8 @@ def check_call_kwargs_do_not_persist():
 
 
 def replay(case):
+    if case.get('kind') == 'first_use_threads':
+        return check_concurrent_first_use()
     if case.get('kind') == 'native_ioport':
         return check_native_ioport_failure_propagates()
     if case.get('kind') == 'call_kwargs':
@@ -415,6 +479,10 @@ CHECK_DEADLOCK FALSE
     ctx.add_tlc(res, 'BackendSel full grid')
     if n != res.distinct:
         raise core.Machinery('replayed %d rows, TLC found %d states' % (n, res.distinct))
+    r = check_concurrent_first_use()
+    ctx.replayed += 1
+    if r:
+        ctx.violation('backend/concurrent-first-use', {'kind': 'first_use_threads'}, r)
     r = check_native_ioport_failure_propagates()
     ctx.replayed += 1
     if r:
